@@ -1,6 +1,7 @@
 import DoviModel.Model.XmlSpec
 import DoviModel.Props.C10
 import DoviModel.Proofs.XmlMoreProof
+import DoviModel.Proofs.XmlDocProof
 /-!
 # C11 — CM XML documents generate the documented integer encodings
 
@@ -1141,5 +1142,561 @@ theorem xml_l6_every_frame (c : Config) (l254 : Option (Nat × Nat)) (l : List R
   rw [this, n1, n2, a1, a2]
   simp only [reduceCtorEq, and_false, false_or, true_and]
   exact (xml_base_l6 c l254 dm0 h1 v hv x hx).1
+
+end Dovi.C11
+
+/-! # Document level: from the tokenised XML document to the RPUs (`Model/XmlDoc.lean`)
+
+`XmlDoc.configOfDoc` is `CmXmlParser::new` on an already tokenised document (`XmlDoc.Doc`: what roxmltree's
+lookups return, decimals as scaled integers): version detection, the `HOME` filter of the target displays, which
+trims are kept (`trim_target_is_known`), block order, defaults, errors and `unwrap()` panics in the parser's
+order.  `XmlDoc.generateDoc` composes it with `Xml.generateXml`; `vlib/c11.py` runs every generated document
+through it (`xml.doc`) and compares the model's RPUs with the real CLI's byte for byte.
+The theorems below are about that composition: (a) frame count and contiguity, (b) what every frame of a shot
+carries, (c) which trims are dropped, (d) the global blocks, (e) when the parser fails or panics.
+-/
+namespace Dovi.C11
+open Dovi Dovi.Gen Dovi.Xml Dovi.XmlMore Dovi.PqTable Dovi.EditGenProof.Gen Dovi.XmlDoc Dovi.XmlDocProof
+
+/-! ## (e) when the parser succeeds, fails, panics -/
+
+/-- **the parser succeeds exactly on the valid documents whose integers fit their Rust types, and then the
+config is `docConfig`**: `docValid` = a version (`DolbyLabsMDF@version` or `Version`) that the fold classifies as
+2.0.5, 4.0.2, 5.0.0 or ≥ 5.1.0; an `Output` and a `Video` node; every `TargetDisplay` with 8 primaries values and
+(XML ≥ 5.0) an `ApplicationType`; every level node of every shot and frame edit well formed (`nodeOk`: L1 / L3 with
+3 values, L5 with 2, L9 with 8, and — only when its `TID` names a kept target — L2 with 9, L8 with 6 + 6 + 6 values
+and a target id below 256).  `docFits` = mastering peak and every target peak ≤ 65535, L254 / L11 values ≤ 255,
+and for CM v4.0 documents every kept target id ≤ 255 -/
+theorem doc_config_ok_iff (o : Opts) (d : Doc) (c : Config) :
+    configOfDoc o d = .ok c ↔ docValid o d ∧ docFits d ∧ c = docConfig o d :=
+  configOfDoc_ok_iff o d c
+
+/-- **`configOfDoc` never panics on a document whose integers fit** (version of at most four components, each at
+most 15 — every version the parser accepts is of this form — and `docFits`), **nor does the generation that
+follows** (`generateDoc` panics only where `configOfDoc` does: the generator and the writer return errors),
+**and then `configOfDoc` errors exactly on the documents that are not valid**.  (Outside `docFits` the parser does
+panic: the examples below.)  Not covered: `usize` overflow of `Record/In`, `Duration`, `EditOffset` and of the
+duration sum -/
+theorem doc_config_no_panic (o : Opts) (d : Doc)
+    (hver : ∀ comps, d.version = some comps → comps.length ≤ 4 ∧ ∀ v ∈ comps, v ≤ 15) (hf : docFits d) :
+    configOfDoc o d ≠ .panic ∧ generateDoc o d ≠ .panic ∧ (configOfDoc o d = .error ↔ ¬ docValid o d) := by
+  have hnp : configOfDoc o d ≠ .panic :=
+    configOfDoc_ne_panic o d (fun comps hc => versionRev_ne_panic comps (hver comps hc).1 (hver comps hc).2) hf
+  refine ⟨hnp, fun h => hnp ((generateDoc_panic_iff o d).1 h), ?_⟩
+  cases hc : configOfDoc o d with
+  | panic => exact absurd hc hnp
+  | error =>
+    simp only [true_iff]
+    intro hv
+    have := (configOfDoc_ok_iff o d (docConfig o d)).2 ⟨hv, hf, rfl⟩
+    rw [hc] at this; cases this
+  | ok c =>
+    simp only [reduceCtorEq, false_iff]
+    exact fun hn => hn ((configOfDoc_ok_iff o d c).1 hc).1
+
+/-- version detection: `a.b.c ↦ 0xabc`; 2.0.5 is CM v2.9, 4.0.2 / 5.0.0 / 5.1.0 and everything above 5.1.0 is
+CM v4.0, from 5.0.0 on with the `HOME` filter; 4.0.3, 5.0.1, 2.0.4, … are rejected; a fifth component, a component
+above 65535 or a sum above 65535 panics (dev profile) -/
+theorem doc_version_classes :
+    versionRev [2, 0, 5] = .ok 0x205 ∧ versionRev [4, 0, 2] = .ok 0x402 ∧ versionRev [5, 1, 0] = .ok 0x510 ∧
+    (∀ rev, versionSupported rev = true ↔ rev = 0x205 ∨ rev = 0x402 ∨ rev = 0x500 ∨ rev ≥ 0x510) ∧
+    (∀ rev, versionSupported rev = true → (isCmv4 rev = true ↔ rev ≠ 0x205) ∧ (isV5 rev = true ↔ rev ≥ 0x500)) ∧
+    versionRev [4, 0, 2, 0, 0] = .panic ∧ versionRev [70000] = .panic ∧ versionRev [15, 15, 15, 16] = .panic ∧
+    versionRev [256, 0, 0] = .ok 0 := by
+  refine ⟨by decide, by decide, by decide, ?_, ?_, by decide, by decide, by decide, by decide⟩
+  · intro rev
+    unfold versionSupported
+    split
+    · simp only [Bool.or_eq_true, beq_iff_eq, decide_eq_true_eq]; omega
+    · simp only [beq_iff_eq]; omega
+  · intro rev h
+    unfold versionSupported at h
+    unfold isCmv4 isV5
+    simp only [decide_eq_true_eq]
+    refine ⟨?_, trivial⟩
+    split at h
+    · simp only [Bool.or_eq_true, beq_iff_eq, decide_eq_true_eq] at h; omega
+    · simp only [beq_iff_eq] at h; omega
+
+/-! ## (a) one RPU per frame of every shot, shots by `Record/In`, frames of a shot contiguous -/
+
+/-- **frame count**: the output has one RPU per frame of every `Shot` node: the sum of the `Record/Duration`s
+(0 for a shot without `Record`) -/
+theorem doc_frame_count (o : Opts) (d : Doc) (out : List Bytes) (h : generateDoc o d = .ok out) :
+    out.length = (d.shotNodes.map ShotNode.duration).sum := by
+  obtain ⟨rs, hrs, hw⟩ := generateDoc_ok o d out h
+  obtain ⟨_, _, _, hg⟩ := generateListDoc_ok o d rs hrs
+  have hx : generateXml (docConfig o d) (l254OfDoc d) = .ok out := by
+    unfold generateXml; rw [hg]; exact hw
+  rw [frame_count _ _ out hx]
+  show sumDurations (sortShots (d.shotNodes.map (shotOf (d.ctx o)))) = _
+  rw [sortShots_sum, sumDurations_map]
+
+/-- **the shots of the config**: the document's `Shot` nodes converted one by one (`shotOf`: start and duration
+from `Record`, own trims, one edit per `Frame`), sorted by start — non-decreasing, a permutation, shots with equal
+starts in document order — and the config length is the sum of the durations -/
+theorem doc_shots_sorted (o : Opts) (d : Doc) (c : Config) (h : configOfDoc o d = .ok c) :
+    c.shots = sortShots (d.shotNodes.map (shotOf (d.ctx o))) ∧
+    c.shots.Pairwise (fun a b => a.start ≤ b.start) ∧
+    c.shots.Perm (d.shotNodes.map (shotOf (d.ctx o))) ∧
+    (∀ k, c.shots.filter (fun s => s.start == k) = (d.shotNodes.map (shotOf (d.ctx o))).filter (fun s => s.start == k)) ∧
+    (∀ s ∈ c.shots, ∃ n ∈ d.shotNodes, s = shotOf (d.ctx o) n) ∧
+    c.length = (d.shotNodes.map ShotNode.duration).sum := by
+  obtain ⟨_, _, rfl⟩ := (configOfDoc_ok_iff o d c).1 h
+  refine ⟨rfl, shots_sorted _, sortShots_perm _, shots_sort_stable _, ?_, ?_⟩
+  · intro s hs
+    have : s ∈ d.shotNodes.map (shotOf (d.ctx o)) := (sortShots_perm _).mem_iff.1 hs
+    obtain ⟨n, hn, rfl⟩ := List.mem_map.1 this
+    exact ⟨n, hn, rfl⟩
+  · show sumDurations (d.shotNodes.map (shotOf (d.ctx o))) = _
+    rw [sumDurations_map]
+
+/-- **contiguity**: the frames of the `k`-th shot (in sorted order) are the outputs at positions
+`startOf k .. startOf k + duration − 1` (`startOf k` = the durations of the shots before it), offset by offset:
+the bytes at position `startOf k + i` are the written `frameRpu` of that shot at offset `i` -/
+theorem doc_frames_contiguous (o : Opts) (d : Doc) (out : List Bytes) (h : generateDoc o d = .ok out) :
+    ∃ c dm0, configOfDoc o d = .ok c ∧ dmFromXmlConfig c (l254OfDoc d) = .ok dm0 ∧
+      ∀ (k : Nat) (hk : k < c.shots.length) (i : Nat), i < c.shots[k].duration →
+        ∃ r b, out[startOf c.shots k + i]? = some b ∧ writeRpu r = .ok b ∧
+          frameRpu c (baseXml dm0) c.shots[k] i = .ok r := by
+  obtain ⟨rs, hrs, hw⟩ := generateDoc_ok o d out h
+  obtain ⟨_, _, hc, hg⟩ := generateListDoc_ok o d rs hrs
+  obtain ⟨dm0, h1, _, _, hall⟩ := generateListXml_frames _ _ rs hg
+  rw [docConfig_shots_sorted] at hall
+  refine ⟨docConfig o d, dm0, hc, h1, ?_⟩
+  intro k hk i hi
+  obtain ⟨r, hr1, hr2⟩ := hall k hk i hi
+  obtain ⟨b, hb1, hb2⟩ := (writeAll_get rs out hw).2 _ r hr1
+  exact ⟨r, b, hb1, hb2, hr2⟩
+
+/-! ## (b) what every frame of a shot carries -/
+
+/-- **every frame of a shot carries the shot's trims unless the `Frame` at its offset names the same key**.
+For the `k`-th shot of the sorted list — it is `shotOf` of some `Shot` node `n` — and every offset `i` below its
+duration, the RPU at position `startOf k + i` is the base RPU with DM data `dm` where, per key (level, plus
+`target_max_pq` for L2 and the target display index for L8):
+* the block is the LAST block with that key among `frameTrims n i` = the trims of the FIRST `Frame` child of `n`
+  whose `EditOffset` is `i` (no such `Frame`: no blocks), if there is one;
+* else the last block with that key among the shot's own trims `trimsOf n.levels` (the blocks of the shot's level
+  nodes in document order: L1 clamped by the document's CM version, L2 / L8 per known target, L3, L5, L9);
+* else the block of the base DM data `dm0` (the global blocks, the same for every frame);
+and nothing else: a frame edit replaces exactly the keys it names.  Blocks of a level whose container does not
+exist (`¬ holds dm0`: L3 / L9 in a CM v2.9 document) are not stored.  The scene-refresh flag is set on offset 0 only -/
+theorem doc_frame_blocks (o : Opts) (d : Doc) (rs : List Rpu) (h : generateListDoc o d = .ok rs) :
+    ∃ c dm0, configOfDoc o d = .ok c ∧ dmFromXmlConfig c (l254OfDoc d) = .ok dm0 ∧ Uniq dm0 ∧
+      ∀ (k : Nat) (hk : k < c.shots.length) (i : Nat), i < c.shots[k].duration →
+        ∃ n r dm, n ∈ d.shotNodes ∧ c.shots[k] = shotOf (d.ctx o) n ∧
+          rs[startOf c.shots k + i]? = some r ∧ r = { baseXml dm0 with vdr_dm_data := some dm } ∧ Uniq dm ∧
+          shell dm = { shell dm0 with scene_refresh_flag := if i = 0 then 1 else 0 } ∧
+          (∀ lv, holds dm lv ↔ holds dm0 lv) ∧
+          ∀ x : Block, x ∈ dm.levelBlocks x.level ↔
+            (holds dm0 x.level ∧ (frameTrims (d.ctx o) n i).reverse.find? (sameKey x) = some x) ∨
+            ((frameTrims (d.ctx o) n i).all (fun b => !sameKey b x) = true ∧ holds dm0 x.level ∧
+              (trimsOf (d.ctx o) n.levels).reverse.find? (sameKey x) = some x) ∨
+            ((frameTrims (d.ctx o) n i).all (fun b => !sameKey b x) = true ∧
+              (trimsOf (d.ctx o) n.levels).all (fun b => !sameKey b x) = true ∧ x ∈ dm0.levelBlocks x.level) := by
+  obtain ⟨_, _, hc, hg⟩ := generateListDoc_ok o d rs h
+  obtain ⟨dm0, h1, hu, hf, hall⟩ := generateListXml_frames _ _ rs hg
+  rw [docConfig_shots_sorted] at hall
+  refine ⟨docConfig o d, dm0, hc, h1, hu, ?_⟩
+  intro k hk i hi
+  obtain ⟨r, hr1, hr2⟩ := hall k hk i hi
+  obtain ⟨_, _, _, _, hmem, _⟩ := doc_shots_sorted o d _ hc
+  obtain ⟨n, hn, hs⟩ := hmem _ (List.getElem_mem hk)
+  obtain ⟨dm, e1, e2, e3, e4, e5⟩ := frameRpu_spec _ (baseXml dm0) _ i r dm0 rfl hf hu hr2
+  refine ⟨n, r, dm, hn, hs, hr1, e1, e2, ?_, e4, ?_⟩
+  · rw [e3]
+    have : cutFlag (docConfig o d) i = if i = 0 then 1 else 0 := by
+      unfold cutFlag
+      show (if i = 0 ∨ false = true then 1 else 0) = _
+      simp
+    rw [this]
+  · intro x
+    have := e5 x
+    rw [hs, editBlocks_shotOf] at this
+    exact this
+
+/-- in particular: a block of the shot's own trims that is the last with its key, whose container exists, and whose
+key no trim of the `Frame` at offset `i` has, is in the frame at offset `i`; and every block of the applicable
+`Frame` that is the last with its key is in its frame -/
+theorem doc_frame_carries (o : Opts) (d : Doc) (rs : List Rpu) (h : generateListDoc o d = .ok rs) :
+    ∃ c dm0, configOfDoc o d = .ok c ∧ dmFromXmlConfig c (l254OfDoc d) = .ok dm0 ∧
+      ∀ (k : Nat) (hk : k < c.shots.length) (i : Nat), i < c.shots[k].duration →
+        ∃ n r dm, n ∈ d.shotNodes ∧ c.shots[k] = shotOf (d.ctx o) n ∧
+          rs[startOf c.shots k + i]? = some r ∧ r.vdr_dm_data = some dm ∧
+          (∀ b, (trimsOf (d.ctx o) n.levels).reverse.find? (sameKey b) = some b → holds dm0 b.level →
+            (frameTrims (d.ctx o) n i).all (fun e => !sameKey e b) = true → b ∈ dm.levelBlocks b.level) ∧
+          (∀ b, (frameTrims (d.ctx o) n i).reverse.find? (sameKey b) = some b → holds dm0 b.level →
+            b ∈ dm.levelBlocks b.level) := by
+  obtain ⟨c, dm0, hc, h1, _, hall⟩ := doc_frame_blocks o d rs h
+  refine ⟨c, dm0, hc, h1, ?_⟩
+  intro k hk i hi
+  obtain ⟨n, r, dm, hn, hs, hr, e1, _, _, _, e5⟩ := hall k hk i hi
+  refine ⟨n, r, dm, hn, hs, hr, by rw [e1], ?_, ?_⟩
+  · intro b hb hh hall'
+    exact (e5 b).2 (.inr (.inl ⟨hall', hh, hb⟩))
+  · intro b hb hh
+    exact (e5 b).2 (.inl ⟨hh, hb⟩)
+
+/-! ## (c) which trims are dropped -/
+
+/-- **a level node is dropped exactly when it is an L2 / L8 trim whose `TID` is missing or is not the id of a kept
+target display, or has a `level` other than 1, 2, 3, 5, 8, 9** — every other node yields exactly one block -/
+theorem doc_trim_dropped_iff (cx : Ctx) (n : LevelNode) :
+    nodeBlock cx n = none ↔
+      n = .other ∨ (∃ tid trim, n = .l2 tid trim ∧ knownTarget cx.targets tid = none) ∨
+      (∃ tid trim mid clip sat hue, n = .l8 tid trim mid clip sat hue ∧ knownTarget cx.targets tid = none) := by
+  cases n <;> simp [nodeBlock]
+
+/-- **the known targets**: a `TID` is known exactly when it is the id of a `TargetDisplay` node that the parser
+kept — any of them before XML 5.0, one with `ApplicationType` `HOME` from 5.0 on -/
+theorem doc_target_known_iff (o : Opts) (d : Doc) (tid : Option Nat) :
+    (knownTarget (d.ctx o).targets tid).isSome = true ↔
+      ∃ id, tid = some id ∧ ∃ t ∈ d.targetNodes, t.id = id ∧ (isV5 d.rev = false ∨ t.home = some true) := by
+  rw [knownTarget_isSome]
+  show (∃ id, tid = some id ∧ ∃ t ∈ d.kept, t.id = id) ↔ _
+  unfold Doc.kept
+  constructor
+  · rintro ⟨id, h1, t, ht, h2⟩
+    obtain ⟨a, b⟩ := List.mem_filter.1 ht
+    refine ⟨id, h1, t, a, h2, ?_⟩
+    cases hv : isV5 d.rev
+    · exact .inl rfl
+    · right; simpa [hv] using b
+  · rintro ⟨id, h1, t, ht, h2, h3⟩
+    refine ⟨id, h1, t, List.mem_filter.2 ⟨ht, ?_⟩, h2⟩
+    rcases h3 with h3 | h3
+    · simp [h3]
+    · simp [h3]
+
+/-- **the trims of a shot / frame edit are the blocks of its kept level nodes, in document order, one per node**;
+without a dynamic-data node there are none -/
+theorem doc_trims_kept (cx : Ctx) (ns : List LevelNode) :
+    trimsOf cx (some ns) = ns.filterMap (nodeBlock cx) ∧ trimsOf cx none = [] ∧
+    (trimsOf cx (some ns)).length = ns.countP (fun n => (nodeBlock cx n).isSome) := by
+  refine ⟨rfl, rfl, ?_⟩
+  show (ns.filterMap (nodeBlock cx)).length = _
+  induction ns with
+  | nil => rfl
+  | cons n rest ih =>
+    rw [List.filterMap_cons, List.countP_cons]
+    cases hb : nodeBlock cx n with
+    | none => simp [ih]
+    | some b => simp [ih]
+
+/-- **the block of a kept trim**: the target is the LAST kept target display with the trim's `TID`; an L2 trim
+carries that target's `target_max_pq` (from its peak nits) and the six encoded trims, an L8 trim the target's id -/
+theorem doc_trim_blocks (cx : Ctx) (id : Nat) (t : Target) (hk : lookup cx.targets id = some t) :
+    t.id = id ∧ (∃ pre post, cx.targets = pre ++ t :: post ∧ ∀ u ∈ post, u.id ≠ id) ∧
+    (∀ trim, nodeBlock cx (.l2 (some id) trim) = some (l2OfXml (pqOfNitsRaw t.peak) (trim.getD 3 0) (trim.getD 4 0)
+      (trim.getD 5 0) (trim.getD 6 0) (trim.getD 7 0) (trim.getD 8 0))) ∧
+    (∀ trim mid clip sat hue, nodeBlock cx (.l8 (some id) trim mid clip sat hue) =
+      some (l8OfXml t.id (trim.getD 0 0) (trim.getD 1 0) (trim.getD 2 0) (trim.getD 3 0) (trim.getD 4 0)
+        (trim.getD 5 0) mid clip sat hue).block) := by
+  refine ⟨(lookup_some hk).2, ?_, ?_, ?_⟩
+  · unfold lookup at hk
+    rw [List.find?_eq_some_iff_append] at hk
+    obtain ⟨_, as, bs, e, hno⟩ := hk
+    refine ⟨bs.reverse, as.reverse, ?_, ?_⟩
+    · have := congrArg List.reverse e
+      simpa using this
+    · intro u hu
+      have := hno u (List.mem_reverse.1 hu)
+      simpa using this
+  · intro trim
+    simp [nodeBlock, knownTarget, hk]
+  · intro trim mid clip sat hue
+    simp [nodeBlock, knownTarget, hk]
+
+/-! ## (d) the global blocks are the same on every frame -/
+
+/-- **the base DM data of a document** (what every frame starts from):
+* L6: max / min mastering display luminance from `MasteringDisplay` (`PeakBrightness`; `MinimumBrightness` in
+  1/10000 nit, rounded), MaxCLL / MaxFALL from `Level6` (rounded) — zeros for missing nodes;
+* L254 by version: CM v4.0 documents (XML ≥ 4.0.2) carry exactly one, with the `Level254` node's `DMMode` /
+  `DMVersion` (defaults 0 / 2; `(0, 2)` without a node); XML 2.0.5 documents carry none;
+* L11 (CM v4.0 only): the `Level11` node's content type / white point when both are present, else the static
+  default `[1, 0, 1, 0, 0]`;
+* L10 (CM v4.0 only): one block per kept target display (per id the last one) whose id is NOT a preset id, none
+  for preset ids;
+* the source levels: `source_min_pq` / `source_max_pq` from the mastering display's luminances -/
+theorem doc_base_blocks (o : Opts) (d : Doc) (dm0 : DmData)
+    (h : dmFromXmlConfig (docConfig o d) (l254OfDoc d) = .ok dm0) :
+    (∀ x, x ∈ dm0.levelBlocks 6 ↔ x = l6Block (level6OfVideo d.video)) ∧
+    (∀ x, x ∈ dm0.levelBlocks 254 ↔ isCmv4 d.rev = true ∧ x = l254Block (l254OfDoc d)) ∧
+    (∀ x, x ∈ dm0.levelBlocks 11 ↔ isCmv4 d.rev = true ∧ x = (level11OfVideo d.video).headD l11Static) ∧
+    (∀ x, x ∈ dm0.levelBlocks 10 ↔
+      isCmv4 d.rev = true ∧ ∃ t ∈ lastOcc d.kept, t.id ∉ presetTargets ∧ x = l10OfTarget t) ∧
+    dm0.main[29]? = some ((minPqOfDecimal (masteringMin d.video * 100) : Nat) : Int) ∧
+    dm0.main[30]? = some ((pqOfNitsRaw (masteringPeak d.video) : Nat) : Int) := by
+  have hl6 : (docConfig o d).level6 = some (level6OfVideo d.video) := rfl
+  have hdef : (docConfig o d).defaults = level11OfVideo d.video ++ docL10 d := rfl
+  have hcm : (docConfig o d).cmv40 = isCmv4 d.rev := rfl
+  have hlev : ∀ b ∈ (docConfig o d).defaults, b.level = 11 ∨ b.level = 10 := by
+    intro b hb
+    rw [hdef] at hb
+    rcases List.mem_append.1 hb with hb | hb
+    · exact .inl (level11OfVideo_level _ b hb)
+    · exact .inr (docL10_level d b hb)
+  have hl10find : ∀ p : Block → Bool, (∀ b, b.level = 10 → p b = false) → (docL10 d).reverse.find? p = none := by
+    intro p hp
+    rw [List.find?_eq_none]
+    intro b hb
+    rw [hp b (docL10_level d b (List.mem_reverse.1 hb))]
+    simp
+  refine ⟨?_, ?_, ?_, ?_, ?_, ?_⟩
+  · intro x
+    constructor
+    · intro hx
+      exact ((xml_base_l6 _ _ dm0 h _ hl6 x (level_of_mem_levelBlocks hx)).1).1 hx
+    · rintro rfl
+      exact ((xml_base_l6 _ _ dm0 h _ hl6 _ rfl).1).2 rfl
+  · have hd : ∀ b ∈ (docConfig o d).defaults, b.level ≠ 254 := by
+      intro b hb; rcases hlev b hb with e | e <;> omega
+    intro x
+    constructor
+    · intro hx
+      have := ((xml_base_l254 _ _ dm0 h hd x (level_of_mem_levelBlocks hx)).1).1 hx
+      rwa [hcm] at this
+    · rintro ⟨hc, rfl⟩
+      exact ((xml_base_l254 _ _ dm0 h hd _ rfl).1).2 ⟨by rw [hcm]; exact hc, rfl⟩
+  · have key : ∀ x : Block, x.level = 11 → (x ∈ dm0.levelBlocks 11 ↔
+        isCmv4 d.rev = true ∧ x = (level11OfVideo d.video).headD l11Static) := by
+      intro x hx
+      rw [xml_base_l11 _ _ dm0 h x hx, hcm, hdef]
+      have hn := hl10find (fun b => b.level == 11) (by intro b hb; simp [hb])
+      rcases level11OfVideo_cases d.video with e | ⟨ct, wp, e⟩
+      · rw [e, List.nil_append, hn]
+        have hall : (docL10 d).all (fun b => b.level != 11) = true := by
+          rw [List.all_eq_true]
+          intro b hb
+          simp [docL10_level d b hb]
+        rw [hall]
+        simp
+      · rw [e, List.reverse_append, List.find?_append, hn]
+        have f1 : [l11OfXml ct wp].reverse.find? (fun b => b.level == 11) = some (l11OfXml ct wp) := rfl
+        have f2 : ([l11OfXml ct wp] ++ docL10 d).all (fun b => b.level != 11) = false := by
+          simp [l11OfXml]
+        rw [f1, f2]
+        simp only [Option.none_or, Option.some.injEq, Bool.false_eq_true, false_and, or_false, List.headD_cons]
+        constructor
+        · rintro ⟨a, b⟩; exact ⟨a, b.symm⟩
+        · rintro ⟨a, b⟩; exact ⟨a, b.symm⟩
+    intro x
+    constructor
+    · intro hx
+      exact (key x (level_of_mem_levelBlocks hx)).1 hx
+    · rintro ⟨hc, e⟩
+      have hx : x.level = 11 := by
+        rw [e]
+        rcases level11OfVideo_cases d.video with e' | ⟨ct, wp, e'⟩ <;> rw [e'] <;> rfl
+      exact (key x hx).2 ⟨hc, e⟩
+  · intro x
+    rw [← docL10_mem]
+    constructor
+    · intro hx
+      exact (base_l10 o d dm0 h x (level_of_mem_levelBlocks hx)).1 hx
+    · intro hx
+      exact (base_l10 o d dm0 h x (docL10_level d x hx)).2 hx
+  · exact (xml_base_l6 _ _ dm0 h _ hl6 (l6Block (level6OfVideo d.video)) rfl).2.1 _ rfl
+  · exact (xml_base_l6 _ _ dm0 h _ hl6 (l6Block (level6OfVideo d.video)) rfl).2.2 _ rfl
+
+/-- **the PQ codes of the document-level model are the certified ones** (`C19`): a target peak / mastering peak up
+to 10000 nits gives the table's code (`target_max_pq` of L2 and L10, `source_max_pq`); a decimal minimum luminance
+gives the certified code of the exact rational wherever the certified search decides — everywhere but inside the
+6·10⁻⁶ code units wide gaps around the rounding ties, where `minPqOfDecimal` is one of the two neighbours (the
+check counts such sites as `tie_ambiguous`) —, and on the 1/10000-nit grid of `source_min_pq` that is the
+min-luminance table's code -/
+theorem doc_pq_codes_certified :
+    (∀ n, n ≤ 10000 → pqOfNitsRaw n = codeOfNits n ∧ pqOfNitsRaw n = pqOfNits n ∧ inBracket n 10000 (pqOfNitsRaw n) = true) ∧
+    (∀ mn c, pqOfDecimal mn = some c → minPqOfDecimal mn = c ∧ inBracket mn (10000 * M) (minPqOfDecimal mn) = true) ∧
+    (∀ k c, k ≤ 10000 → pqOfDecimal (k * 100) = some c → minPqOfDecimal (k * 100) = codeOfMinLum k) := by
+  refine ⟨?_, ?_, ?_⟩
+  · intro n hn
+    obtain ⟨a, b⟩ := pqOfNitsRaw_table n hn
+    exact ⟨a, b, by rw [a]; exact nits_inBracket n hn⟩
+  · intro mn c h
+    have e := minPqOfDecimal_certified mn c h
+    exact ⟨e, by rw [e]; exact codeOfRat_inBracket h⟩
+  · intro k c hk h
+    rw [minPqOfDecimal_certified _ c h]
+    exact pqOfDecimal_grid k c hk h
+
+example : minPqOfDecimal 5000 = 62 ∧ pqOfDecimal 5000 = some 62 ∧ minPqOfDecimal (1 * 100) = codeOfMinLum 1 ∧
+    pqOfNitsRaw 100 = 2081 ∧ pqOfNitsRaw 10011 = 4095 ∧ pqOfNitsRaw 10012 = 4096 ∧ minPqOfDecimal 20000000000 = 4095 := by
+  decide +kernel
+
+/-- **the global blocks are the same on every frame**: in every generated RPU the L6, L10, L11 and L254 blocks
+are exactly those of the base DM data (`doc_base_blocks`) — no level node of a shot or frame edit yields a block of
+these levels — and so are the source PQ levels -/
+theorem doc_global_blocks (o : Opts) (d : Doc) (rs : List Rpu) (h : generateListDoc o d = .ok rs) :
+    ∃ dm0, dmFromXmlConfig (docConfig o d) (l254OfDoc d) = .ok dm0 ∧
+      ∀ r ∈ rs, ∃ dm, r.vdr_dm_data = some dm ∧ dm.main = dm0.main ∧
+        ∀ x : Block, x.level = 6 ∨ x.level = 10 ∨ x.level = 11 ∨ x.level = 254 →
+          (x ∈ dm.levelBlocks x.level ↔ x ∈ dm0.levelBlocks x.level) := by
+  obtain ⟨_, _, hc, hg⟩ := generateListDoc_ok o d rs h
+  obtain ⟨dm0, h1, hu, hf, _⟩ := generateListXml_frames _ _ rs hg
+  refine ⟨dm0, h1, ?_⟩
+  intro r hr
+  obtain ⟨dm0', h1', s, hs, i, _, hfr⟩ := mem_generateListXml _ _ rs hg r hr
+  rw [h1] at h1'; cases h1'
+  rw [docConfig_shots_sorted] at hs
+  obtain ⟨_, _, _, _, hmem, _⟩ := doc_shots_sorted o d _ hc
+  obtain ⟨n, _, rfl⟩ := hmem s hs
+  obtain ⟨dm, e1, _, e3, _, e5⟩ := frameRpu_spec _ (baseXml dm0) _ i r dm0 rfl hf hu hfr
+  refine ⟨dm, by rw [e1], ?_, ?_⟩
+  · have := congrArg DmData.main e3
+    simpa [shell] using this
+  · intro x hx
+    have a1 : (editBlocks (shotOf (d.ctx o) n) i).all (fun b => !sameKey b x) = true := by
+      apply all_not_sameKey_of_level
+      intro b hb
+      rw [editBlocks_shotOf] at hb
+      have := frameTrims_level _ _ _ b hb
+      omega
+    have a2 : (shotOf (d.ctx o) n).blocks.all (fun b => !sameKey b x) = true := by
+      apply all_not_sameKey_of_level
+      intro b hb
+      have := trimsOf_level _ _ b hb
+      omega
+    have n1 := (all_not_iff_find_none _ x).1 a1
+    have n2 := (all_not_iff_find_none _ x).1 a2
+    rw [e5 x, n1, n2, a1, a2]
+    simp
+
+/-! ## non-vacuity: a document that exercises every clause -/
+
+def exP709 : List Int := [640000, 330000, 300000, 600000, 150000, 60000, 312700, 329000]
+def exPCustom : List Int := [641000, 332000, 330000, 640000, 155000, 66000, 312770, 329800]
+
+/-- a document around the given version, target displays and shots: canvas 1.77778, image 2.38806, MaxFALL 400,
+MaxCLL 1000, mastering display 0.0001 .. 1000 nits, `Level254` (0, 2), `Level11` (2, 0) -/
+def exDocWith (ver : List Nat) (targets : List Target) (shots : List ShotNode) : Doc :=
+  { version := some ver,
+    output := some {
+      canvasAr := some 1777780, imageAr := some 2388060,
+      video := some {
+        level6 := some (some 400000000, some 1000000000), mastering := some (some 100, some 1000),
+        level254 := some (some 0, some 2), level11 := some (some 2, some 0),
+        targets := targets, shots := shots } } }
+
+/-- targets 1 (HOME, 100 nits, BT.709: a preset id), 60 (HOME, 600 nits, custom primaries: a custom id) and 48
+(CINEMA: not kept from XML 5.0 on) -/
+def exTargets : List Target :=
+  [{ id := 1, peak := 100, minNits := 5000, prim := exP709 },
+   { id := 60, peak := 600, minNits := 5000, prim := exPCustom },
+   { id := 48, peak := 1000, minNits := 5000, prim := exP709, home := some false }]
+
+/-- two shots in shuffled document order.  The shot recorded at 5 (2 frames) has an L1 node, an L2 trim for
+target 1, an L2 trim for target 48, an L8 trim for target 60, a node of level 4, and a `Frame` at offset 1 with
+another L2 trim for target 1; the shot recorded at 0 (1 frame) has an L1 node only -/
+def exShots : List ShotNode :=
+  [{ record := some (5, 2),
+     levels := some [.l1 [100, 200000, 500000],
+                     .l2 (some 1) [0, 0, 0, 10000, -20000, 30000, 40000, 50000, 100000],
+                     .l2 (some 48) [0, 0, 0, 0, 0, 0, 0, 0, 0],
+                     .l8 (some 60) [10000, 20000, 30000, 40000, 50000, 60000] 20000 (-10000) [0, 0, 0, 0, 170000, 0] [0, 250000, 0, 0, 0, 0],
+                     .other],
+     frames := [{ offset := 1, levels := some [.l2 (some 1) [0, 0, 0, 0, 0, 0, 0, 0, 500000]] }] },
+   { record := some (0, 1), levels := some [.l1 [0, 100000, 300000]] }]
+
+def exDoc : Doc := exDocWith [5, 1, 0] exTargets exShots
+def exOpts : Opts := { canvasWidth := some 3840, canvasHeight := some 2160 }
+
+/-- the value of a successful run (for stating examples without an existential) -/
+def okVal {α β} (r : Res α) (f : α → β) : Option β :=
+  match r with
+  | .ok a => some (f a)
+  | _ => none
+
+-- (e) the parser accepts the document; (a) shots sorted by start, 3 frames; the config's global values
+example :
+    okVal (configOfDoc exOpts exDoc) (fun c => (c.cmv40, c.length)) = some (true, 3) ∧
+    okVal (configOfDoc exOpts exDoc) (fun c => c.shots.map fun s => (s.start, s.duration, s.blocks.map (·.level))) =
+      some [(0, 1, [1]), (5, 2, [1, 2, 8])] ∧
+    okVal (configOfDoc exOpts exDoc) (fun c => c.shots.map fun s => s.edits.map fun e => (e.offset, e.blocks.map (·.level))) =
+      some [[], [(1, [2])]] ∧
+    okVal (configOfDoc exOpts exDoc) (fun c => (c.level5, c.level6)) = some ([0, 0, 276, 276], some [1000, 1, 1000, 400]) ∧
+    okVal (configOfDoc exOpts exDoc) (fun c => (c.sourceMinPq, c.sourceMaxPq)) = some (some 7, some 3079) ∧
+    okVal (configOfDoc exOpts exDoc) (fun c => c.defaults.map fun b => (b.level, b.vals.take 4)) =
+      some [(11, [2, 0, 0, 0]), (10, [60, 2851, 62, 255])] := by
+  decide +kernel
+
+-- (c) only the trim for the non-HOME target 48 and the level-4 node are dropped; in XML 4.0.2 the same
+-- target is kept (no ApplicationType filter) and only the level-4 node is dropped
+example : (exShots.map fun s => (s.levels.getD []).map fun n => (nodeBlock (exDoc.ctx exOpts) n).isSome) =
+      [[true, true, false, true, false], [true]] ∧
+    (exShots.map fun s => (s.levels.getD []).map fun n =>
+        (nodeBlock ((exDocWith [4, 0, 2] exTargets exShots).ctx exOpts) n).isSome) =
+      [[true, true, true, true, false], [true]] := by
+  decide +kernel
+
+-- (a), (b), (d) on the generated list: 3 RPUs; position 0 is the shot recorded at 0, positions 1 and 2 the shot
+-- recorded at 5; the shot's L2 trim (ms_weight 0.1 ↦ 2253) is on its frame 0, the Frame's (0.5 ↦ 3072) replaces
+-- it on frame 1 only, where the shot's L1 and L8 stay; L6 / L10 / L11 / L254 are the same on all three
+example : okVal (generateListDoc exOpts exDoc) List.length = some 3 := by decide +kernel
+example : okVal (generateListDoc exOpts exDoc)
+      (fun rs => rs.map fun r => r.vdr_dm_data.map fun dm => (dm.levelBlocks 1).map (·.vals)) =
+    some [some [[0, 2081, 1229]], some [[0, 2081, 1229]], some [[0, 2081, 1229]]] := by decide +kernel
+example : okVal (generateListDoc exOpts exDoc)
+      (fun rs => rs.map fun r => r.vdr_dm_data.map fun dm => (dm.levelBlocks 2).map (·.vals)) =
+    some [some [], some [[2081, 1987, 2068, 1987, 2130, 2150, 2253]], some [[2081, 2048, 2048, 2048, 2048, 2048, 3072]]] := by
+  decide +kernel
+example : okVal (generateListDoc exOpts exDoc)
+      (fun rs => rs.map fun r => r.vdr_dm_data.map fun dm => (dm.levelBlocks 8).map fun b => (b.length, b.vals.take 2)) =
+    some [some [], some [(25, [60, 2068])], some [(25, [60, 2068])]] := by decide +kernel
+example : okVal (generateListDoc exOpts exDoc)
+      (fun rs => rs.map fun r => r.vdr_dm_data.map fun dm => (dm.levelBlocks 6).map (·.vals)) =
+    some [some [[1000, 1, 1000, 400]], some [[1000, 1, 1000, 400]], some [[1000, 1, 1000, 400]]] := by decide +kernel
+example : okVal (generateListDoc exOpts exDoc)
+      (fun rs => rs.map fun r => r.vdr_dm_data.map fun dm => (dm.levelBlocks 10).map fun b => b.vals.take 4) =
+    some [some [[60, 2851, 62, 255]], some [[60, 2851, 62, 255]], some [[60, 2851, 62, 255]]] := by decide +kernel
+example : okVal (generateListDoc exOpts exDoc)
+      (fun rs => rs.map fun r => r.vdr_dm_data.map fun dm => (dm.levelBlocks 11 ++ dm.levelBlocks 254).map (·.vals)) =
+    some [some [[2, 0, 0, 0, 0], [0, 2]], some [[2, 0, 0, 0, 0], [0, 2]], some [[2, 0, 0, 0, 0], [0, 2]]] := by decide +kernel
+example : okVal (generateListDoc exOpts exDoc) (fun rs => rs.map fun r => r.vdr_dm_data.map (·.scene_refresh_flag)) =
+    some [some 1, some 1, some 0] := by decide +kernel
+
+-- the bytes exist: generation of the document succeeds with three payloads
+example : okVal (generateDoc exOpts exDoc) List.length = some 3 := by
+  decide +kernel
+
+-- XML 2.0.5: CM v2.9 (L1 average clamped at 819 instead of 1229), no L254 / L10 / L11, the L8 trim is an error
+example : okVal (generateListDoc exOpts (exDocWith [2, 0, 5] exTargets [{ record := some (0, 1), levels := some [.l1 [0, 100000, 300000]] }]))
+      (fun rs => rs.map (fun r => r.vdr_dm_data.map fun dm => ((dm.levelBlocks 1).map (·.vals), dm.cmv40.isNone))) =
+      some [some ([[0, 2081, 819]], true)] ∧
+    okVal (generateListDoc exOpts (exDocWith [2, 0, 5] exTargets exShots)) List.length = none := by
+  decide +kernel
+
+-- (e) errors: unsupported version, missing Output, a known L2 trim with 8 values, a target with 7 primaries values,
+-- XML 5.x target without ApplicationType; an L2 trim with 8 values for an unknown target is NOT an error
+example : configOfDoc exOpts (exDocWith [4, 0, 3] exTargets exShots) = .error ∧
+    configOfDoc exOpts { exDoc with output := none } = .error ∧
+    configOfDoc exOpts (exDocWith [5, 1, 0] exTargets [{ record := some (0, 1), levels := some [.l2 (some 1) [0, 0, 0, 0, 0, 0, 0, 0]] }]) = .error ∧
+    configOfDoc exOpts (exDocWith [5, 1, 0] [{ id := 1, peak := 100, minNits := 0, prim := exP709.take 7 }] []) = .error ∧
+    configOfDoc exOpts (exDocWith [5, 1, 0] [{ id := 1, peak := 100, minNits := 0, prim := exP709, home := none }] []) = .error ∧
+    (∃ c, configOfDoc exOpts (exDocWith [5, 1, 0] exTargets [{ record := some (0, 1), levels := some [.l2 (some 48) [0, 0, 0, 0, 0, 0, 0, 0]] }]) = .ok c) := by
+  refine ⟨rfl, rfl, rfl, rfl, rfl, _, rfl⟩
+
+-- (e) panics outside `docFits`: a target id above 255 in a CM v4.0 document (`id.parse::<u8>().unwrap()` when the
+-- L10 blocks are built) — the same document as XML 2.0.5 is accepted —, a target peak above 65535, a fifth
+-- version component
+example : configOfDoc exOpts (exDocWith [4, 0, 2] [{ id := 300, peak := 100, minNits := 0, prim := exP709 }] []) = .panic ∧
+    (∃ c, configOfDoc exOpts (exDocWith [2, 0, 5] [{ id := 300, peak := 100, minNits := 0, prim := exP709 }] []) = .ok c) ∧
+    configOfDoc exOpts (exDocWith [4, 0, 2] [{ id := 3, peak := 65536, minNits := 0, prim := exP709 }] []) = .panic ∧
+    configOfDoc exOpts (exDocWith [4, 0, 2, 0, 0] [] []) = .panic := by
+  refine ⟨rfl, ⟨_, rfl⟩, rfl, rfl⟩
+
+-- the hypotheses of `doc_config_no_panic` hold for the example document
+example : (∀ comps, exDoc.version = some comps → comps.length ≤ 4 ∧ ∀ v ∈ comps, v ≤ 15) ∧ docFits exDoc := by
+  refine ⟨?_, by decide, ?_, ?_⟩
+  · intro comps h
+    have : comps = [5, 1, 0] := by
+      have : some [5, 1, 0] = some comps := h
+      injection this with e; exact e.symm
+    subst this
+    decide
+  · decide
+  · intro _; decide
 
 end Dovi.C11
